@@ -556,9 +556,9 @@ def check_step(run, last_op, pending):
         if sorted(map(id, got)) != sorted(id(t) for _pre, ev, t in table if ev == e):
             bad('monitor', 'get_transitions-by-trigger-not-exact', trigger=e, got=len(got))
     rng = random.Random(len(table) * 7 + len(paths))
-    for _ in range(12):
-        src = rng.choice([None] + paths)
-        dst = rng.choice([None] + paths)
+    combos = [(None, p_) for p_ in paths] + [(p_, None) for p_ in paths] + \
+        [(rng.choice([None] + paths), rng.choice([None] + paths)) for _ in range(12)]
+    for src, dst in combos:
         if src is None and dst is None:
             continue
         got = m.get_transitions('', '*' if src is None else sep.join(src), '*' if dst is None else sep.join(dst))
